@@ -137,6 +137,8 @@ def zbool(v):
 
 
 def zstr(v):
+    if hasattr(v, "to_z3"):
+        return v.to_z3()
     if isinstance(v, str):
         return z3.StringVal(v)
     if isinstance(v, z3.SeqRef):
